@@ -96,3 +96,9 @@
 #[derive(Logos)] #[logos(subpattern a = "(?&b)")] enum SubpatternForwardRef { #[regex("(?&a)")] A }
 #[derive(Logos)] enum NonUtf8InStr { #[token(b"\xFF")] A }
 #[derive(Logos)] enum TieSamePattern { #[token("a")] A, #[regex("a")] B }
+#[derive(Logos)] enum GreedyCounted { #[regex(".{2,}")] A }
+#[derive(Logos)] enum GreedyCountedClass { #[regex(r"x[^\n]{3,}")] A }
+#[derive(Logos)] enum GreedyCountedNested { #[regex("(a.{5,}b)+")] A }
+#[derive(Logos)] #[logos(skip(r"//.{1,}"))] enum GreedyCountedSkip { #[token("a")] A }
+#[derive(Logos)] enum GreedyCapturedDot { #[regex("(.)*x")] A }
+#[derive(Logos)] enum GreedyCapturedDotNested { #[regex("a((.))+b")] A }
